@@ -14,7 +14,9 @@ from ..dvrun import explore, DVSession
 
 RULES = {
     'R-KIND': 'the FFT output (always complex) flows through richardson / dea3 / _Limit._get_best_estimate without reaching a kernel '
-              'that rejects complex input: no TypeError on any path of an abstract run of Taylor.__call__',
+              'that rejects complex input: no TypeError on any path of an abstract run of Taylor.__call__, and the returned '
+              'coefficients are those complex values (no projection to a real part, which for complex z0 / complex valued f drops '
+              'information)',
     'R-RESET': 'every attribute written while Taylor.__call__ runs (radius-search state machine) is assigned by _initialize, which runs '
                'first: a call does not depend on a previous call on the same object',
     'R-FAILED': 'on every explored path `failed` is exactly "the loop ended without the convergence test succeeding" (iteration cap '
@@ -75,6 +77,14 @@ def taylor_runs(ctx, fb):
                 coefs, info = obj(DV({('z0',)}, 'f', sel={('z0',)}))
             finally:
                 I.on_setattr = None
+            # a second call on the same object: the reset must be complete on *every* call, not only the first
+            del log[:]
+            del rets[:]
+            I.on_setattr = lambda o, a, v: log.append((a, I.stack[-1] if I.stack else '?')) if o is obj else None
+            try:
+                coefs, info = obj(DV({('z0',)}, 'f', sel={('z0',)}))
+            finally:
+                I.on_setattr = None
             written.append(log)
             records.append((rets, info))
             return coefs, info, rets
@@ -87,6 +97,12 @@ def taylor_runs(ctx, fb):
                 bad_kind.append({'raises': exc.exc_name, 'message': exc.msg[:90], 'path': path[:200]})
                 continue
             coefs, info, rets = res
+            # (a numpy array has one dtype: complex as soon as one element is)
+            elems = coefs.items() if isinstance(coefs, Arr) else [coefs]
+            lost = sorted({getattr(v, 'note', None) or 'kind %s' % getattr(v, 'kind', '?') for v in elems
+                           if not (isinstance(v, DV) and v.kind in ('c', 'z'))})
+            if lost and not any(isinstance(v, DV) and v.kind in ('c', 'z') for v in elems):
+                bad_kind.append({'coefficients_not_complex': lost[:2], 'path': path[:200]})
             converged_last = bool(rets[-1]) if rets else False
             want_failed = not converged_last
             if info.failed is not want_failed and info.failed != want_failed:
@@ -121,8 +137,7 @@ def factorial(ctx, fb):
     ntc = I.get_global('fornberg', '_num_taylor_coefficients')
     INFO = I.get_global('fornberg', '_INFO')
     import math
-    for full_output in (True, False):
-        m = 8
+    for full_output, m, nreq in ((True, 8, 6), (False, 8, 6), (True, 32, 25)):
         seen = {}
 
         def on_call(fn, args, kwargs, node, fr, full_output=full_output):
@@ -141,14 +156,14 @@ def factorial(ctx, fb):
         I.on_call = on_call
         try:
             kw = {'full_output': True} if full_output else {}
-            out = deriv('FUN', Poly.sym('z0'), 6, **kw)
+            out = deriv('FUN', Poly.sym('z0'), nreq, **kw)
         finally:
             I.on_call = None
         problems = []
-        if tuple(seen.get('ntc') or ()) != (6,):
+        if tuple(seen.get('ntc') or ()) != (nreq,):
             problems.append('number of coefficients computed from %r instead of n' % (seen.get('ntc'),))
         targs = seen.get('taylor')
-        if not targs or tuple(targs[0][:2]) != ('FUN', Poly.sym('z0')) or targs[1].get('n', targs[0][2] if len(targs[0]) > 2 else None) != 6:
+        if not targs or tuple(targs[0][:2]) != ('FUN', Poly.sym('z0')) or targs[1].get('n', targs[0][2] if len(targs[0]) > 2 else None) != nreq:
             problems.append('taylor not called with (fun, z0, n): %r' % (targs,))
         coefs = out[0] if full_output else out
         if not isinstance(coefs, Arr) or coefs.shape != (m,) or \
@@ -162,5 +177,5 @@ def factorial(ctx, fb):
             if (info.degenerate, info.final_radius, info.function_count, info.iterations, info.failed) != ('DEGEN', 'R', 'FC', 'IT', 'FAILED'):
                 problems.append('status fields changed: %r' % (tuple(info)[1:],))
         rep.check(not problems, 'R-FACTORIAL', 'fornberg.derivative', fb.where(ctx.repo.func('fornberg', 'derivative')),
-                  {'problems': problems[:3]}, 'values and error estimates scaled by the same k!', 'full_output=%s' % full_output,
+                  {'problems': problems[:3]}, 'values and error estimates scaled by the same k!', 'full_output=%s/n=%d (%d coefficients)' % (full_output, nreq, m),
                   key='factorial')
